@@ -64,6 +64,11 @@ pub fn run(key: &str, a: &[String]) -> String {
                 Err(_) => "0 0 0".to_string(),
             }
         }
+        "mol_strict" => {
+            let ty = &a[0];
+            let bytes: Vec<u8> = a[1..].iter().map(|x| u(x) as u8).collect();
+            format!("{}", crate::molwalk::strict(ty, &bytes))
+        }
         "mol_walk" => {
             // args: type index is not used; the type NAME comes as a string argument, then the bytes
             let ty = &a[0];
